@@ -80,7 +80,10 @@ _iov("C10", "Arena memory is reclaimed: no leak after drop, bounded footprint in
       "Woodpile.Props.C10.drop_all_releases",
       "Woodpile.Props.C10.dropAll_releases",
       "Woodpile.Props.C10.consumed_anchors_released",
-      "Woodpile.Props.C10.front_anchor_counts"],
+      "Woodpile.Props.C10.front_anchor_counts",
+      "Woodpile.Props.C10.findHintSize_le",
+      "Woodpile.Props.C10.streaming_footprint",
+      "Woodpile.Props.C10.streaming_footprint_prod"],
      ["Woodpile.Props.C10"], ["C10"], ["L"],
      "Kernel-checked: dropping every object leaves no holder (derived liveness); correspondence of the live-chunk set after every operation; "
      "leak oracle on the process-wide counters at the end of every history.",
